@@ -608,6 +608,10 @@ impl Check for C16 {
             "defect:param-on-non-operation",
         ]
     }
+    fn fuzz_families(&self, _tier: Tier) -> Vec<(&'static str, u64)> {
+        // libFuzzer runs per job (16 jobs), sized from the measured speed of the instrumented build
+        vec![("comments", 12000), ("defects", 10000)]
+    }
     fn families(&self, tier: Tier) -> Vec<Family<'_>> {
         let cfg = GenCfg {
             max_files: 2,
